@@ -154,7 +154,7 @@ Print Assumptions C06_concurrent_close.
     is the function Corr/C06.v uses) is accepted - [mon_run] reports no rejection at all
     (simulation relation between model state and acceptor state, Router/CloseRefine.v) *)
 Theorem C06_acceptor_accepts_model :
-  forall nh hp n hon f6 ls, mon_run nh hp (trace (init n hon true f6 true) ls) = [].
+  forall hp n hon f6 ls, mon_run n hp (trace (init n hon true f6 true) ls) = [].
 Proof. exact mon_accepts_model. Qed.
 Print Assumptions C06_acceptor_accepts_model.
 
@@ -280,7 +280,7 @@ Print Assumptions C06_system_steps_decrease_measure.
     never-started handlers, any subscribers, with or without the D6/D16 repairs, any schedule; no
     rejection code of any kind.  One simulation case per label ([sim_step], Router/CloseRefine.v). *)
 Theorem C06_model_accepted :
-  forall nh hp n u hon f6 f16 ls, mon_run nh hp (trace (init_u n u hon true f6 true f16) ls) = [].
+  forall hp n u hon f6 f16 ls, mon_run n hp (trace (init_u n u hon true f6 true f16) ls) = [].
 Proof. exact mon_accepts_model_u. Qed.
 Print Assumptions C06_model_accepted.
 
